@@ -73,6 +73,7 @@ type Obligation struct {
 	exec     *Exec
 	frame    *Frame
 	clause   *Clause
+	retGhost map[string]Val // ghost state at the return this ensures obligation belongs to
 }
 
 type deferred struct {
